@@ -147,6 +147,9 @@ class Rig(object):
                 raise CheckError('setup %r failed: %r' % (st, r))
         self.model = None
         self.polluted = False
+        # LOCATE 25,c allows writing on the bottom row until the cursor leaves that row again; kept by the
+        # check itself (not read from the implementation), so that a stale permission shows
+        self.allow25 = False
         self.resync()
 
     # observations ---------------------------------------------------------------
@@ -198,7 +201,7 @@ class Rig(object):
         view = 'view' if m.view else 'noview'
         start = ('col1' if m.c == 1 else 'pending' if m.c > m.w else 'margin' if m.c == m.w else 'mid')
         atbottom = 'bottom' if m.r == m.bottom else ('outside' if not m.in_window() else 'inner')
-        modelled = m.in_window() and not self.ts._bottom_row_allowed
+        modelled = m.in_window() and not self.allow25
         r = H.run(self.s, stmt)
         kind = spec[0]
         name = {'P': 'print', 'C': 'ctrl', 'L': 'locate', 'S': 'stmt', 'V': 'view'}[kind]
@@ -288,6 +291,11 @@ class Rig(object):
                                    '' if r.err is None else '/err%d' % r.err)
             if kind == 'C':
                 info = 'ctrl/%d/%s/%s' % (spec[1], 'pending' if start == 'pending' else 'nopending', view)
+        # the permission for the bottom row: given by a successful LOCATE 25,c, gone once the cursor is elsewhere
+        if kind == 'L' and spec[1] == HEIGHT and r.err is None:
+            self.allow25 = True
+        elif csr != HEIGHT:
+            self.allow25 = False
         # reported cursor must be the internal cursor under one of the accepted reporting variants
         self.resync()
         if (csr, pos) not in self.model.cursor_reports() and self.model.in_window():
